@@ -71,8 +71,9 @@ type e1Spec struct {
 	Parts     []int  `json:"parts,omitempty"` // Write partition (enc)
 	// stall injection: task thread StallThread (first batch) polls StallPolls times in its wait loop
 	// while its predecessor stands still (mode "stall": one directed execution)
-	StallThread int   `json:"stall_thread,omitempty"`
-	StallPolls  int64 `json:"stall_polls,omitempty"`
+	StallThread  int   `json:"stall_thread,omitempty"`
+	StallThreads []int `json:"stall_threads,omitempty"` // several waiters, each stalled at its first wait (any mode)
+	StallPolls   int64 `json:"stall_polls,omitempty"`
 	Skip      bool   `json:"skip_blocks,omitempty"` // ctx skipBlocks
 	Magic     bool   `json:"magic,omitempty"`       // the data starts with the signature of a compressed format
 	// fault injection (panic with an error inside a shared-stream op, or in the compute phase)
@@ -473,6 +474,13 @@ func e1RunOnce(sp *e1Spec, preps []*e1Prep, prefix []int, sleepInit map[int]bool
 	if sp.StallThread > 0 {
 		s.ArmStall(sp.StallThread, sp.StallPolls)
 		s.Directed = []int{sp.StallThread, sp.StallThread}
+	}
+	if len(sp.StallThreads) > 0 && e1Directed == nil {
+		s.Directed = nil
+		for _, w := range sp.StallThreads {
+			s.ArmStall(w, sp.StallPolls)
+			s.Directed = append(s.Directed, w, w)
+		}
 	}
 	if sp.Mode == "cache" && !keepEvents {
 		s.UseCache = true
